@@ -23,6 +23,9 @@ suite `portability`:
   pe b<bits>                -> =<text>             (abstract `encode`; Go: encoding of a catchment model holding those flags)
   pd <n> =<text>            -> ok b<bits> | err:..  (abstract `decode n`; Go: flags of a fresh model after Decode + Decompress)
   order <pu>:<type>:<id> .. -> HYP keysDistinct <true|false> <pu>:<type>:<id> ..   (model's sorted order of the gathered list)
+  less <pu>:<type>:<id> <pu>:<type>:<id> -> 0 | 1          (`less`; Go: ManagementActions.Less over SimpleManagementAction stubs)
+  sort <pu>:<type>:<id> ..  -> d <pu>:<type>:<id> ..       (keys distinct: the whole sorted list is determined)
+                             | e <pu>:<type> ..            (equal keys present: only the key sequence is)
 Text is escaped: bytes outside 0x21..0x7E and '%' travel as %XX (ASCII only; other characters travel raw).
 -/
 namespace Driver.BoolArchive
@@ -206,6 +209,17 @@ def stepPort (line : String) : String :=
     match n.toNat?, textArg t with
     | some n, some t => specDec n t
     | _, _ => "bad-op"
+  | ["less", a, b] =>
+    match parseAction a, parseAction b with
+    | some a, some b => boolStr (less a b)
+    | _, _ => "bad-op"
+  | "sort" :: toks =>
+    match toks.mapM parseAction with
+    | some acts =>
+      let sorted := sortActions acts
+      if keysDistinct acts then " ".intercalate ("d" :: sorted.map actionStr)
+      else " ".intercalate ("e" :: sorted.map (fun a => s!"{a.pu}:{a.type}"))
+    | none => "bad-op"
   | "order" :: toks =>
     match toks.mapM parseAction with
     | some acts =>
